@@ -279,7 +279,14 @@ def oracle(case, res, hist):
                                                     f"({n} members)"))
             if r[1] != 0:
                 V.append(v("group-not-empty", ctxkey, f"len(group) == {r[1]} after terminate"))
-            # every local child has exited
+            # every local child has exited - already when terminate() returns (it waits for / kills them)
+            for name in (r[4] if len(r) > 4 else ()):
+                if res.procs.get(name, {}).get("alive"):
+                    continue  # reported below with more context
+                gi = [g for g, pn, role in case["members"] if pn == name]
+                prog = case["progs"].get(str(gi[0])) if gi else "?"
+                V.append(v("child-alive-at-return", f"{ctxkey};prog={prog};fault={fd.get(name)}",
+                           f"local child {name} had not exited yet when terminate({T}) returned"))
             for name, p in sorted(res.procs.items()):
                 if p["parent"] == "init" and p["alive"]:
                     if case["mode"] == "failing":
